@@ -275,18 +275,19 @@ class Ctx:
 
     # ----------------------------------------------------- trace validation
     def validate_traces(self, module, cfg, trace_file, n_events, n_traces, consts=None, timeout=900,
-                        deque=False, heap="8g", workers=1, tag=None):
+                        deque=False, heap="8g", workers=1, tag=None, own_dir=None):
         """Run a trace spec over an ndjson file.  The trace spec reads the file
         named by env VERIF_TRACE, and on completion prints `@@TRACE {"matched":k}`
         (k = longest matched prefix, from a TLCSet/TLCGet high-water mark or the
         diameter).  Returns (accepted, matched, result)."""
-        d = self.specdir()
+        # own_dir=<name>: run in a private copy of spec/ so that several validations can run concurrently
+        d = self.specdir(own_dir) if own_dir else self.specdir()
         dst = os.path.join(d, "trace.ndjson")
         src = trace_file if os.path.isabs(trace_file) else os.path.join(self.out, trace_file)
         if os.path.abspath(src) != dst:
             shutil.copyfile(src, dst)
         res = self.tlc(module, cfg, workers=workers, consts=consts, timeout=timeout, deque=deque, heap=heap,
-                       expect_ok=False, count=False, tag=tag)
+                       expect_ok=False, count=False, tag=tag, cwd=d)
         matched = None
         for s in self.tlc_printed(res, "@@TRACE"):
             try:
